@@ -237,6 +237,9 @@ def check_case(ctx, case):
             if acc in ('forms', 'files', 'POST') and is_mp:
                 for k, items in v.items():
                     for it in items:
+                        if it is None:
+                            ctx.count('delivered_value_is_None(empty filename part)')      # no data delivered: nothing to judge
+                            continue
                         D = it.encode('utf8') if isinstance(it, str) else it[2]
                         needle = b'\r\n\r\n' + D + b'\r\n--' + (bnd or '').encode('latin1')
                         if bnd is None or needle not in logical:
